@@ -66,7 +66,7 @@ def run(ctx):
                 window.append([wa, rnd.randint(1, ext - wa)])
             # which of the two attributes this step assigns, and in which order; the other one keeps its value
             steps.append({"coeffs": cspec, "origin": None if o is None else [o.numerator, o.denominator],
-                          "order": rnd.choice(["co", "oc", "c", "o", "c", "o"]), "region": region, "window": window})
+                          "order": rnd.choice(["co", "oc", "c", "o", "c", "o"]), "via": rnd.randint(0, 1), "region": region, "window": window})
         cases.append({"dtype": dt, "shape": shape, "raw": raw, "steps": steps})
     impl = ctx.run_impl("impl_calib.py", {"cases": cases}, timeout=3000)
     import numpy as np
@@ -75,6 +75,7 @@ def run(ctx):
         rawq = [[Fraction(x).numerator, Fraction(x).denominator] for x in c["raw"]]
         arr = np.arange(len(c["raw"])).reshape(c["shape"])
         cur_c, cur_o, hist = None, None, []
+        prev_window = None
         for stp, got in zip(c["steps"], r["steps"]):
             # the calibration in force after this step: an attribute that is not assigned keeps its value
             if "c" in stp["order"]:
@@ -94,6 +95,17 @@ def run(ctx):
             if "error" in got:
                 failures.append(("setting the calibration was refused", inp, got))
                 continue
+            # other Python objects of the same array, and the views kept from the previous step
+            if got["whole2"] != got["whole"] or got["whole2_dtype"] != got["whole_dtype"]:
+                failures.append(("two objects of one array return differently calibrated values", inp,
+                                 {"first": got["whole_dtype"], "second": got["whole2_dtype"]}))
+            if got.get("kept") is not None and prev_window is not None:
+                psel = arr[tuple(slice(a, a + e) for a, e in prev_window)]
+                for kr in got["kept"]:
+                    if kr != [got["whole"][i] for i in psel.ravel()]:
+                        failures.append(("a view obtained before the calibration changed returns differently calibrated values", inp,
+                                         {"previous_window": prev_window}))
+            prev_window = stp["window"]
             coeffs = stp["coeffs"] or []
             calibrated = len(coeffs) > 0 or (stp["origin"] is not None and Fraction(*stp["origin"]) != 0)
             if not got["raw_same"]:
@@ -137,7 +149,9 @@ def run(ctx):
         "rule": "arrays of 9 numeric element types, rank 1-3, raw values and coefficients on the quarter grid in [-2, 2] (float64 "
                 "Horner exact), coefficient lists of length 0-5 incl. zeros and None, origin in {None, 0, non-zero}, 1-4 set/clear "
                 "steps per array; per step: whole read vs the model (exact rationals) and vs the polynomial specification in "
-                "Gallina; array[region], view[:] and tagged_data(0)[:] vs the whole read (commutation); raw h5py read of the "
+                "Gallina; array[region], view[:] and tagged_data(0)[:] vs the whole read (commutation); the calibration is assigned "
+                "through either of two Python objects of the array, the whole read is repeated through the other object, and the "
+                "view and tagged view kept from the previous step are read again after the change; raw h5py read of the "
                 "dataset (values and dtype) after every change; result dtype.",
         "disagreements": len(disagreements), "spec_failures": len(failures),
         "samples": [inputs[0]],
